@@ -3,10 +3,14 @@ package cluster
 import (
 	"bytes"
 	"fmt"
+	"io"
+	"os"
+	"path/filepath"
 	"time"
 
 	"github.com/bbva/qed/balloon"
 	"github.com/bbva/qed/crypto/hashing"
+	"github.com/bbva/qed/storage/rocks"
 
 	"qedverif/lib"
 	"qedverif/ref"
@@ -154,6 +158,29 @@ func checkReplicas(c *lib.Ctx, lc *lockedCluster, rl *replicaLog, r *lib.Rand, s
 			fail("hyper-cache-invariant", fmt.Sprintf("replica %s: in-memory hyper cache differs from a rebuild from its store (%v)", id, err))
 		}
 		c.Count("cache_invariant_checks", 1)
+	}
+	// crash image: what a replica would find on disk if it were killed right now (a file copy of its live
+	// database directory, opened as a store) must hold everything it has applied
+	{
+		id := ids[r.Intn(len(ids))]
+		nd := lc.Nodes[id]
+		img := filepath.Join(lc.Dir, fmt.Sprintf("crashimg-%s-%d", id, r.Uint64()%100000))
+		if err := copyDir(filepath.Join(nd.Cfg.Dir, "db"), img); err == nil {
+			os.Remove(filepath.Join(img, "LOCK"))
+			if st, err := rocks.NewRocksDBStore(img, 0); err == nil {
+				for _, t := range Tables {
+					d := DumpTable(st, t)
+					if d.Hash != dumps[id][t.String()].Hash {
+						fail("crash-image:"+t.String(), fmt.Sprintf("replica %s: table %s in a copy of its on-disk files (what survives a kill) differs from its live state: %s", id, t, FirstDiff(dumps[id][t.String()], d)))
+					}
+				}
+				st.Close()
+				c.Count("crash_images_checked", 1)
+			} else {
+				c.Count("crash_images_unopenable", 1)
+			}
+		}
+		os.RemoveAll(img)
 	}
 	for _, id := range ids[1:] {
 		for _, t := range Tables {
@@ -357,4 +384,36 @@ func runC06Plan(c *lib.Ctx, p c06plan, attempt int) string {
 	c.Case(fmt.Sprintf("%v", p.Phases), len(rl.Events) >= 10 && checked > 0)
 	c.Count("events_replicated", int64(len(rl.Events)))
 	return "held"
+}
+
+// copyDir copies the regular files of src (no sub-directories: the backups directory is skipped) to dst.
+func copyDir(src, dst string) error {
+	if err := os.MkdirAll(dst, 0755); err != nil {
+		return err
+	}
+	ents, err := os.ReadDir(src)
+	if err != nil {
+		return err
+	}
+	for _, e := range ents {
+		if e.IsDir() {
+			continue
+		}
+		in, err := os.Open(filepath.Join(src, e.Name()))
+		if err != nil {
+			return err
+		}
+		out, err := os.Create(filepath.Join(dst, e.Name()))
+		if err != nil {
+			in.Close()
+			return err
+		}
+		_, err = io.Copy(out, in)
+		in.Close()
+		out.Close()
+		if err != nil {
+			return err
+		}
+	}
+	return nil
 }
